@@ -38,6 +38,9 @@ class Aff:
 
     def __init__(self, env, name, dim, var=None):
         self.env, self.dim, self.var = env, dim, var
+        if not hasattr(env, "_affs"):
+            env._affs = []
+        env._affs.append(self)
         self.base = env.tensor(name + "0", (dim,) if dim > 1 else ())
         self.b = elems(env, self.base)
         if var is not None:
@@ -223,3 +226,141 @@ def assume_positive(env, sh, rows):
 def rows_of(o, width):
     """nested list (n, width) -> list of rows"""
     return [list(r) for r in o]
+
+
+# ---- catalogue --------------------------------------------------------------
+
+
+def catalog(tier, families=("prim", "dep", "bool", "product", "transform", "nested")):
+    """list of (name, builder(env) -> Sh, info dict)"""
+    out = []
+    T2 = ("Circle", "Parallelogram", "Triangle")
+    if "prim" in families:
+        for kind in ("Interval",) + T2 + (("Sphere",) if tier == "thorough" else ()):
+            out.append((kind, (lambda env, kind=kind: PRIMS[kind](env)), dict(kind=kind, fam="prim")))
+    if "dep" in families:
+        for kind in ("Interval", "Circle") + (("Parallelogram", "Triangle", "Sphere") if tier == "thorough" else ()):
+            out.append((kind + "[t]", (lambda env, kind=kind: PRIMS[kind](env, dep="t")), dict(kind=kind, fam="dep")))
+    if "bool" in families:
+        pairs = [("Circle", "Parallelogram"), ("Interval", "Interval")]
+        if tier == "thorough":
+            pairs += [("Parallelogram", "Circle"), ("Triangle", "Circle"), ("Circle", "Circle")]
+        for a, b in pairs:
+            for opn, op in (("+", union), ("-", cut), ("&", inter)):
+                out.append(("(%s%s%s)" % (a, opn, b),
+                            (lambda env, a=a, b=b, op=op: op(PRIMS[a](env, tag="A"), PRIMS[b](env, tag="B"))),
+                            dict(kind=opn, fam="bool")))
+    if "product" in families:
+        out.append(("(Circle*Interval)", lambda env: product(circle(env, tag="A"), interval(env, tag="B", var="t")),
+                    dict(fam="product")))
+        out.append(("(Circle[t]*Interval)", lambda env: product(circle(env, tag="A", dep="t"), interval(env, tag="B", var="t")),
+                    dict(fam="product", dependent=True)))
+        if tier == "thorough":
+            out.append(("(Interval[t]*Interval)", lambda env: product(interval(env, tag="A", dep="t"), interval(env, tag="B", var="t")),
+                        dict(fam="product", dependent=True)))
+            out.append(("(Parallelogram*Interval)", lambda env: product(parallelogram(env, tag="A"), interval(env, tag="B", var="t")),
+                        dict(fam="product")))
+    if "transform" in families:
+        for kind in ("Circle", "Parallelogram") + (("Triangle",) if tier == "thorough" else ()):
+            out.append(("Translate(%s)" % kind, (lambda env, kind=kind: translate(env, PRIMS[kind](env, tag="A"))),
+                        dict(fam="transform")))
+            out.append(("Rotate(%s)" % kind, (lambda env, kind=kind: rotate(env, PRIMS[kind](env, tag="A"))),
+                        dict(fam="transform")))
+        out.append(("Translate[t](Circle)", lambda env: translate(env, circle(env, tag="A"), dep="t"), dict(fam="transform", dep=True)))
+        out.append(("Rotate[t](Parallelogram)", lambda env: rotate(env, parallelogram(env, tag="A"), dep="t"), dict(fam="transform", dep=True)))
+    if "nested" in families and tier == "thorough":
+        out.append(("((Circle-Parallelogram)+Triangle)",
+                    lambda env: union(cut(circle(env, tag="A"), parallelogram(env, tag="B")), triangle(env, tag="C")),
+                    dict(fam="nested")))
+        out.append(("((Circle+Circle)&Parallelogram)",
+                    lambda env: inter(union(circle(env, tag="A"), circle(env, tag="B")), parallelogram(env, tag="C")),
+                    dict(fam="nested")))
+        out.append(("Translate((Circle-Parallelogram))",
+                    lambda env: translate(env, cut(circle(env, tag="A"), parallelogram(env, tag="B"))), dict(fam="nested")))
+        out.append(("Rotate((Circle&Parallelogram))",
+                    lambda env: rotate(env, inter(circle(env, tag="A"), parallelogram(env, tag="B"))), dict(fam="nested")))
+    return out
+
+
+def bound_all_inputs(env, bound=16, rows=({},)):
+    """normalisation assumption |v| <= bound on every real input symbol declared so far and on
+    every (parameter-dependent) shape parameter evaluated at the given parameter rows"""
+    if not env.symbolic:
+        return
+    for aff in getattr(env, "_affs", []):
+        f = aff.oracle()
+        for prm in rows:
+            if aff.var is not None and aff.var not in prm:
+                continue
+            bounded(env, f(prm), bound)
+    import numpy as np
+    import z3
+
+    for name, (shape, kind) in env.inputs.items():
+        if kind != "real":
+            continue
+        names = [name] if shape == () else [name + "".join("_%d" % i for i in idx) for idx in np.ndindex(*shape)]
+        for nm in names:
+            v = z3.Real(nm)
+            env.assume(z3.And(v <= bound, v >= -bound))
+
+
+def bounded(env, values, bound=16):
+    """normalisation assumption: |v| <= bound for the given formula-level values"""
+    L = env.L
+    for v in values:
+        env.assume(L.And(L.le(v, bound), L.ge(v, -bound)))
+
+
+# ---- abstract operands (assume-guarantee checks of the composition layer) ----
+
+from torchphysics.problem.domains.domain import Domain as _Domain, BoundaryDomain as _BoundaryDomain
+
+
+class StubDomain(_Domain):
+    """An arbitrary domain: membership answers are free symbolic booleans (one per row), the
+    points it is asked about are recorded.  Used to check what a composition does with ANY operand."""
+
+    def __init__(self, space, env, tag, n):
+        super().__init__(space, dim=space.dim)
+        self.necessary_variables = set()
+        self.env, self.tag, self.n = env, tag, n
+        self.t_in = env.tensor(tag + "_in", (n, 1))
+        self.t_on = env.tensor(tag + "_on", (n, 1))
+        self.asked = []
+        self.asked_bd = []
+        L = env.L
+        self.f_in = [L.gt(v, 0) for v in elems(env, self.t_in)]
+        self.f_on = [L.gt(v, 0) for v in elems(env, self.t_on)]
+        for a, b in zip(self.f_on, self.f_in):
+            env.assume(L.Implies(a, b))  # boundary points belong to the (closed) set
+
+    def _contains(self, points, params=Points.empty()):
+        self.asked.append((points, params))
+        return self.t_in > 0
+
+    def __call__(self, **data):
+        return self
+
+    def bounding_box(self, params=Points.empty(), device="cpu"):
+        raise NotImplementedError
+
+    @property
+    def boundary(self):
+        return StubBoundary(self)
+
+
+class StubBoundary(_BoundaryDomain):
+    def __init__(self, domain):
+        super().__init__(domain)
+        self.t_nrm = None
+
+    def _contains(self, points, params=Points.empty()):
+        self.domain.asked_bd.append((points, params))
+        return self.domain.t_on > 0
+
+    def normal(self, points, params=Points.empty(), device="cpu"):
+        d = self.domain
+        if getattr(d, "t_normal", None) is None:
+            d.t_normal = d.env.tensor(d.tag + "_nu", (d.n, d.space.dim))
+        return d.t_normal
